@@ -240,3 +240,110 @@ Section Inv.
     apply pred_equiv.
   Qed.
 End Inv.
+
+(* ------------------------------------------------------------------ concurrent operations *)
+
+Section Fork.
+  Variable np : nat.
+
+  Lemma while_some_nth {A} (l : list (option A)) : forall j x,
+    nth_error (while_some l) j = Some x -> nth_error l j = Some (Some x).
+  Proof.
+    induction l as [|[a|] t IH]; intros [|j] x H; cbn in *; try discriminate; auto.
+    inversion H. reflexivity.
+  Qed.
+  Lemma while_some_length {A} (l : list (option A)) : length (while_some l) <= length l.
+  Proof. induction l as [|[a|] t IH]; cbn; lia. Qed.
+
+  Lemma exact_extend cs ix X : exact np cs ix -> exact np (cs ++ X) ix.
+  Proof.
+    intros [Hl Hw]. split.
+    - intros pos paths H. destruct (Hl pos paths H) as [c [Hc Hp]]. exists c. split; auto.
+      rewrite nth_error_app_l; auto. apply nth_error_Some. congruence.
+    - intros s es H. specialize (Hw s es H). rewrite app_length. lia.
+  Qed.
+
+  Lemma merge_in_exact cs0 A B ix1 ix2 :
+    exact np (cs0 ++ A) ix1 -> exact np (cs0 ++ B) ix2 ->
+    exact np ((cs0 ++ A) ++ B)
+          (merge_in (length (cs0 ++ A)) ix1 (length cs0) ix2 (length B)).
+  Proof.
+    intros H1 H2. destruct ix1 as [[s es]|]; cbn [merge_in]; [|apply exact_null].
+    destruct (Nat.eqb_spec (s + length es) (length (cs0 ++ A))) as [E|E];
+      [|now apply exact_extend].
+    destruct H1 as [Hl1 Hw1]. destruct H2 as [Hl2 _].
+    set (W := while_some (map (fun j => cp_lookup ix2 (length cs0 + j)) (seq 0 (length B)))).
+    assert (HW : length W <= length B).
+    { unfold W. etransitivity; [apply while_some_length|]. now rewrite map_length, seq_length. }
+    split.
+    - intros pos paths H. apply cp_lookup_some in H. destruct H as [Hs Hn].
+      destruct (Nat.lt_ge_cases (pos - s) (length es)) as [Hlt|Hge].
+      + rewrite nth_error_app_l in Hn by assumption.
+        destruct (Hl1 pos paths (proj2 (cp_lookup_some s es pos paths) (conj Hs Hn))) as [c [Hc Hp]].
+        exists c. split; auto. rewrite nth_error_app_l; auto. apply nth_error_Some. congruence.
+      + rewrite nth_error_app_r in Hn by assumption. fold W in Hn.
+        set (j := pos - s - length es) in *.
+        apply while_some_nth in Hn. rewrite nth_error_map' in Hn.
+        destruct (nth_error (seq 0 (length B)) j) as [j'|] eqn:Ej; [|discriminate].
+        cbn in Hn. inversion Hn as [Hlk]; clear Hn.
+        assert (Hj : j' = j /\ j < length B).
+        { assert (Hlt : j < length (seq 0 (length B))) by (apply nth_error_Some; congruence).
+          rewrite seq_length in Hlt. split; auto.
+          apply nth_error_nth with (d := 0) in Ej. rewrite seq_nth in Ej by assumption. lia. }
+        destruct Hj as [-> Hj].
+        destruct (Hl2 _ _ Hlk) as [c [Hc Hp]]. exists c. split; auto.
+        rewrite nth_error_app_r in Hc by lia. replace (length cs0 + j - length cs0) with j in Hc by lia.
+        rewrite nth_error_app_r by lia. replace (pos - length (cs0 ++ A)) with j by (unfold j; lia).
+        exact Hc.
+    - intros s' es' H. inversion H; subst. fold W. rewrite !app_length in *. lia.
+  Qed.
+
+  Lemma fold_run_prefix steps : forall st,
+    exists X, fst (fold_left (run_step np) steps st) = fst st ++ X /\ length X <= length steps.
+  Proof.
+    induction steps as [|s t IH]; intros [cs ix]; cbn [fold_left].
+    - exists []. cbn. rewrite app_nil_r. auto.
+    - destruct s; cbn [run_step].
+      + destruct (IH (cs ++ [c], add_commit np (length cs) ix c)) as [X [HX HL]].
+        exists (c :: X). cbn [fst] in *. rewrite HX, <- app_assoc. cbn. split; auto. lia.
+      + destruct (IH (cs, build np cs ix maxc)) as [X [HX HL]]. exists X. cbn [fst] in *.
+        split; auto. cbn. lia.
+  Qed.
+
+  Definition tsize (t : tstep) : nat :=
+    match t with TOne _ => 1 | TFork a b => length a + length b end.
+  Definition tsizes (l : list tstep) : nat := fold_right (fun t acc => tsize t + acc) 0 l.
+
+  Lemma run_tstep_exact st t : (N.of_nat (length (fst st) + tsize t) < U32MAX)%N ->
+    exact np (fst st) (snd st) ->
+    exact np (fst (run_tstep np st t)) (snd (run_tstep np st t)) /\
+    length (fst (run_tstep np st t)) <= length (fst st) + tsize t.
+  Proof.
+    intros Hsmall He. destruct t as [s|a b]; cbn [run_tstep tsize] in *.
+    - split; [apply run_step_exact; auto; lia|]. assert (Hl := run_step_length np st s). lia.
+    - destruct (fold_run_prefix a st) as [A [HA HLA]]. destruct (fold_run_prefix b st) as [B [HB HLB]].
+      assert (E1 := fold_run_exact np a st ltac:(lia) He).
+      assert (E2 := fold_run_exact np b st ltac:(lia) He).
+      destruct (fold_left (run_step np) a st) as [cs1 ix1].
+      destruct (fold_left (run_step np) b st) as [cs2 ix2].
+      cbn [fst snd] in *. subst cs1 cs2.
+      assert (Hsk : skipn (length (fst st)) (fst st ++ B) = B).
+      { rewrite skipn_app, skipn_all, Nat.sub_diag. reflexivity. }
+      rewrite Hsk. split.
+      + now apply merge_in_exact.
+      + rewrite !app_length. lia.
+  Qed.
+
+  Theorem run_t_exact steps : (N.of_nat (tsizes steps) < U32MAX)%N ->
+    exact np (fst (run_t np steps)) (snd (run_t np steps)).
+  Proof.
+    unfold run_t. intros H.
+    assert (Hgen : forall l st, (N.of_nat (length (fst st) + tsizes l) < U32MAX)%N ->
+              exact np (fst st) (snd st) ->
+              exact np (fst (fold_left (run_tstep np) l st)) (snd (fold_left (run_tstep np) l st))).
+    { induction l as [|t l IH]; intros st Hs He; cbn [fold_left]; auto.
+      cbn [tsizes fold_right] in Hs. fold (tsizes l) in Hs.
+      destruct (run_tstep_exact st t ltac:(lia) He) as [He' Hl']. apply IH; auto. lia. }
+    apply Hgen; [exact H|apply exact_null].
+  Qed.
+End Fork.
